@@ -180,18 +180,31 @@ def hasKey (n : LNode) (k : String) : Bool := n.kids.any (·.1 == k) || n.leaves
 def delKey (n : LNode) (k : String) : LNode :=
   { n with kids := n.kids.filter (·.1 != k), leaves := n.leaves.filter (·.1 != k) }
 
-/-- the storage-dict update performed by an *unblocked* mutator; `none` = `KeyError`, nothing changed -/
+/-- `dict[k] = v`: an existing key keeps its position, a new key goes to the end (the order of the tensor-collection
+entries is the order `_propagate_lock` / `_propagate_unlock` walk them in) -/
+def setKid (kids : List (String × Nat)) (k : String) (j : Nat) : List (String × Nat) :=
+  if kids.any (·.1 == k) then kids.map (fun e => if e.1 == k then (k, j) else e) else kids ++ [(k, j)]
+def setLeaf (leaves : List (String × Nat × Nat)) (k : String) (v : Nat × Nat) : List (String × Nat × Nat) :=
+  if leaves.any (·.1 == k) then leaves.map (fun e => if e.1 == k then (k, v) else e) else leaves ++ [(k, v)]
+
+/-- the storage-dict update performed by an *unblocked* mutator; `none` = `KeyError`, nothing changed.
+mirrors `_set_str` (`self._tensordict[key] = value`), `del_`, `rename_key_` (set the new key, then delete the old one),
+`_select(inplace=True)` (keys given in storage order), `_exclude(inplace=True)`, `clear`. -/
 def applyEff (n : LNode) : Eff → Option LNode
-  | .addLeaf k o => some { delKey n k with leaves := (delKey n k).leaves ++ [(k, o, 0)] }
-  | .addKid k j => some { delKey n k with kids := (delKey n k).kids ++ [(k, j)] }
+  | .addLeaf k o => some { n with kids := n.kids.filter (·.1 != k), leaves := setLeaf n.leaves k (o, 0) }
+  | .addKid k j => some { n with leaves := n.leaves.filter (·.1 != k), kids := setKid n.kids k j }
   | .del k => if hasKey n k then some (delKey n k) else none
   | .rename k k' =>
     if !hasKey n k then none
     else if k == k' then some n
     else
-      let n' := delKey n k'
-      some { n' with kids := n'.kids.map (fun e => if e.1 == k then (k', e.2) else e),
-                     leaves := n'.leaves.map (fun e => if e.1 == k then (k', e.2) else e) }
+      match n.kids.find? (·.1 == k) with
+      | some e =>
+        some { n with kids := setKid (n.kids.filter (·.1 != k)) k' e.2, leaves := n.leaves.filter (fun l => l.1 != k' && l.1 != k) }
+      | none =>
+        match n.leaves.find? (·.1 == k) with
+        | some l => some { n with leaves := setLeaf (n.leaves.filter (·.1 != k)) k' l.2, kids := n.kids.filter (·.1 != k') }
+        | none => none
   | .keep ks => if ks.all (hasKey n) then
       some { n with kids := n.kids.filter (fun e => ks.contains e.1), leaves := n.leaves.filter (fun e => ks.contains e.1) }
     else none
